@@ -1220,6 +1220,11 @@ class Scenario(TagAndStatusStatement, Replayable):
                     #   * Undefined steps are not detected (by intention).
                     #   * Step skipped remaining scenario.
                     step.status = Status.skipped
+        elif run_scenario:
+            # -- NOT EXECUTED: Hook failed or test run was aborted.
+            # Steps should not keep the results of an earlier run (retry).
+            for step in self.all_steps:
+                step.reset()
 
         self.clear_status()  # -- ENFORCE: compute_status() after run.
         if not run_scenario and not self.steps:
